@@ -8,7 +8,8 @@ FRESH_KINDS = ['list', 'dict', 'obj'] + ODD_EQ_KINDS
 
 
 class Gen:
-    def __init__(self, rng, names=None, nmaps=None, nhandles=None, alias_p=0.12, odd_p=0.5, fail_p=0.15):
+    def __init__(self, rng, names=None, nmaps=None, nhandles=None, alias_p=0.12, odd_p=0.5, fail_p=0.15,
+                 eq_p=0.3, split_p=0.25):
         self.rng = rng
         self.lines = []
         if names is None:
@@ -28,8 +29,21 @@ class Gen:
         self.paths = []           # keys that were assigned at some time (to aim queries at)
         self.fails = {}
         singles = rng.sample(SINGLETON_KINDS, len(SINGLETON_KINDS))
+        # user subclasses with value semantics: distinct objects that compare equal (and hash alike, or are
+        # unhashable), falsy objects - the library must go by identity
+        self.eq_mode = rng.random() < eq_p
+        self.no_alias = self.eq_mode and rng.random() < 0.5      # then every value is stored at most once
+        if self.no_alias:
+            self.alias_p = 0.0
+        # a key delimiter other than '/' (subclass attribute or instance attribute), and then names containing '/'
+        self.split = (rng.choice('|;'), rng.choice(['sub', 'inst'])) if rng.random() < split_p else None
+        self.slash_names = rng.sample(['t~g.png', 'a~b', '~x'], rng.randint(1, 2)) if self.split else []
         for m in self.maps:
-            self.lines.append(f'newmap {m}')
+            opts = ''
+            if self.split:
+                opts += f' split={self.split[0]}{self.split[1]}'
+            opts += self.value_opts(maps=True)
+            self.lines.append(f'newmap {m}{opts}')
         # at least one loaded value with odd equality (== True for everything, raising __eq__/__bool__,
         # equal-but-not-identical twins, duck-typed equality) in most scenarios
         odd = rng.randrange(len(self.handles)) if self.handles and rng.random() < odd_p else -1
@@ -46,13 +60,40 @@ class Gen:
             if rng.random() < fail_p or (i == odd and rng.random() < 2 * fail_p):
                 fail = ' fail=' + rng.choice(['1', '1', '1,2', '2', '1,3', '2,3', '3'])
             self.fails[h] = fail
-            self.lines.append(f'newhandle {h} {kind}{fail}')
+            self.lines.append(f'newhandle {h} {kind}{fail}{self.value_opts()}')
+
+    def value_opts(self, maps=False):
+        rng = self.rng
+        if not self.eq_mode:
+            return ' falsy=1' if rng.random() < 0.05 else ''
+        r = rng.random()
+        out = ''
+        # ResourceMap.clear() tests `child.parent == self`: with value-equal MAPS and a child stored in two of
+        # them (aliasing, outside Fresh) it detaches a child of the other map - reported as a witness; maps get
+        # value equality only in scenarios without aliasing
+        if maps and not self.no_alias:
+            r = 1.0
+        if r < (0.35 if maps else 0.6):
+            out += ' eq=A'
+        elif r < (0.5 if maps else 0.85):
+            out += ' ueq=A'
+        if rng.random() < 0.3:
+            out += ' falsy=1'
+        return out
 
     def emit(self, s):
         self.lines.append('op ' + s)
 
     # ---- ingredients
     def path(self, maxlen=4):
+        p = self.path0(maxlen)
+        # a name containing '/' is only used directly under a declared map (which has the other delimiter);
+        # maps that __setitem__ creates on the way are plain ResourceMaps with the '/' delimiter
+        if self.slash_names and self.rng.random() < 0.4:
+            p = [self.rng.choice(self.slash_names)] + p[1:]
+        return p
+
+    def path0(self, maxlen=4):
         rng = self.rng
         if self.paths and rng.random() < 0.6:
             p = list(rng.choice(self.paths))
@@ -78,6 +119,10 @@ class Gen:
 
     def value(self, map_p=0.25):
         rng = self.rng
+        if self.no_alias:
+            if self.unused_m and rng.random() < map_p:
+                return self.unused_m.pop(rng.randrange(len(self.unused_m)))
+            return self.unused_h.pop(rng.randrange(len(self.unused_h))) if self.unused_h else None
         if rng.random() < map_p:
             if self.unused_m and rng.random() > self.alias_p:
                 return self.unused_m.pop(rng.randrange(len(self.unused_m)))
@@ -92,6 +137,8 @@ class Gen:
         root = root or self.root()
         p = p or self.path()
         v = v or self.value()
+        if v is None:
+            return
         self.paths.append(p)
         self.emit(f'set {root} {self.tok(p)} {v}')
 
@@ -119,6 +166,8 @@ class Gen:
         self.emit(f'clear {self.root()}')
 
     def op_bind(self):
+        if self.split:
+            return          # a map reached through get() may be a plain one: its delimiter is '/'
         name = f'm{self.nmaps + len(self.bound)}'
         # the binding succeeds only if the path names a map; either way the name is used up
         self.emit(f'bind {name} {self.root()} {self.tok(self.path(3))}')
